@@ -750,6 +750,8 @@ class Kernel:
                     raise Unsupported('append to ' + lst.kind)
                 if isinstance(f, ast.Attribute) and f.attr in ('simplefilter',):
                     return cont(env)
+                if self.dotted_of(f) in self.spec.get('ignore_calls', []):
+                    return cont(env)
                 r = self.call(s.value, env)
                 if isinstance(r, tuple) and r[0] == 'raising':
                     return self.raising_call(r, None, env, cont)
@@ -788,7 +790,14 @@ class Kernel:
             env = self.assign(s.target, v, env)
             return self.flush() + cont(env)
         if isinstance(s, ast.If):
-            c = self.truthy(self.expr(s.test, env))
+            dtest = self.dotted_of(s.test) if isinstance(s.test, (ast.Name, ast.Attribute)) else None
+            st = self.spec.get('static', {}).get(dtest) if dtest else None
+            if st in ('none', 'false'):
+                c = 'false'
+            elif st in ('notnone', 'true'):
+                c = 'true'
+            else:
+                c = self.truthy(self.expr(s.test, env))
             if c == 'true':
                 return self.block(list(s.body) + rest, env, k)
             if c == 'false':
